@@ -119,3 +119,13 @@ func b2i(b bool) int {
 	}
 	return 0
 }
+
+// vtraceRx reports a packet the receive loop is about to process: its type
+// byte and, where present, its sequence byte (-1 otherwise).
+func vtraceRx(src any, b []byte) {
+	seq := -1
+	if len(b) > 1 {
+		seq = int(b[1])
+	}
+	vtrace(src, "rx", int(b[0]), seq, len(b))
+}
